@@ -9,6 +9,7 @@ pub struct Rec {
     out: BufWriter<File>,
     oracle: BufWriter<File>,
     pub n_ops: u64,
+    pub n_conn_new: u64,
     pub n_cases: u64,
     pub n_oracle_fail: u64,
     pub hist: BTreeMap<String, u64>,
@@ -40,6 +41,7 @@ impl Rec {
             out: f("impl.out"),
             oracle: f("oracle.jsonl"),
             n_ops: 0,
+            n_conn_new: 0,
             n_cases: 0,
             n_oracle_fail: 0,
             hist: BTreeMap::new(),
